@@ -36,6 +36,8 @@ def main(tier, only=None):
         "ATTEMPTED, NOT FINISHING (dropped, nothing claimed): a fully symbolic macro body for subst(); termination / "
         "complete rescanning of <= 3 mutually referential object-like macros through the real expand_macro/preprocess2 "
         "(harness h_terminate is kept in harness/c09/macro.c; even 3 one-token macros exceed 200 s in cbmc 6.11 symex)",
+        "`##` with an operand that is the result of `#` (e.g. `x ## # y`: chibicc gives `# q`, gcc `\"q\"`): the order of "
+        "evaluation of # and ## is unspecified (C11 6.10.3.2p2), nothing claimed",
         "whether ill-formed replacement lists (`#` not followed by a parameter, `##` at an end) are diagnosed — e.g. "
         "`x ## #` is accepted silently (gcc rejects it): constraint violation, no token sequence prescribed",
         "function-like rescanning across the invocation boundary, variadic forms (__VA_ARGS__, __VA_OPT__, `, ##`), "
